@@ -187,6 +187,10 @@ def fixed_corpus():
     add(D([A2, B2, TRA, {'name': 'Q', 'window': {'kind': 'transition', 'factors': ['R', 'B']},
                          'levels': [{'name': 'q0', 'pred': ['table', [[[x, x], [y, y]] for x in ('r0', 'r1') for y in ('b0', 'b1')]]},
                                     {'name': 'q1', 'else': True}]}], cross('ABRQ', 'AB', [['AtMostKInARow', 2, 'Q', 'q1']])))
+    # AtLeastKInARow with k >= 3 and at least k+2 trials, small enough for the RandomGen enumeration (the rule against a
+    # run that starts in the last trials)
+    add(D([A2, B2], cross('AB', 'A', [['MinimumTrials', 5], ['AtLeastKInARow', 3, 'B', 'b0']])))
+    add(D([A2, B2], cross('AB', 'A', [['MinimumTrials', 6], ['AtLeastKInARow', 3, 'B', 'b0']])))
     # a two-trial preamble over a 3-level factor (3**2 preambles, not 3*2)
     add(D([A3, window('W', 'A', 3)], cross('AW', 'W')))
     # a window wider than the whole sequence (two trials), starting early: shifted source indices run past the grid
